@@ -30,6 +30,12 @@ THEOREMS = [
     "C28_failed_not_recorded",
     "C28_shipped_converges",
     "C28_shipped_same_final_state",
+    "C28_close_without_commit",
+    "C28_restart_converges",
+    "C28_shipped_restart_converges",
+    "C28_kill_points",
+    "C28_killed_run_recovers",
+    "C28_seed_window_witness",
 ]
 LEAN_TARGETS = ["WfProps.C28"]
 EXPLANATION = (
@@ -48,7 +54,17 @@ EXPLANATION = (
     "for every start state of the shipped list and for seeded synthetic migration packages (importable temp packages: "
     "malformed/misplaced/Unicode headers, duplicate and zero versions, unpadded names, non-.sql entries, failing and "
     "fault-injected scripts, second package); loader/regex correspondence incl. the Unicode tables. Monitors (S): "
-    "converge / each-version-once / idempotent / no-raise directly on real databases, independent of the model."
+    "converge / each-version-once / idempotent / no-raise directly on real databases, independent of the model. "
+    "Connection level (WfModel/MigrateConn.lean): one sqlite3 connection in Python's default transaction mode (durable "
+    "file vs the connection's own view; implicit BEGIN before DML, executescript commits what is pending, close "
+    "discards it) and run_migrations as the trace of its write calls; C28_close_without_commit: a process start that "
+    "commits nothing itself (connect / run / close, as DBOSRuntime.run_migrations does) leaves in the file exactly what "
+    "the abstract run computes, nothing pending, for any sources and database; C28_restart_converges states the "
+    "property on the re-opened file; C28_kill_points / C28_killed_run_recovers classify every file a killed run can "
+    "leave. K: ops session / durables / pick (every run a process start on a file, observed through a new connection; "
+    "all kill points of a run enumerated on copies of the file). S: after run_migrations returned and the connection was "
+    "closed without commit the RE-OPENED file has the fresh schema and every version once, and the next process start "
+    "changes nothing; a restart after a kill at any point converges (one classified window excepted, see notes)."
 )
 LEVEL_TEXT = "proof (generic theorems + decide on the regenerated table) + op-by-op correspondence + direct monitors"
 ASSUMPTIONS = [
@@ -65,6 +81,14 @@ ASSUMPTIONS = [
     "PRAGMA journal_mode are outside the model but inside the monitors' raw sqlite_master comparison",
     "a migration script does not itself contain COMMIT/ROLLBACK/BEGIN or create an object named schema_migrations",
     "concurrent migrators (two processes) are not covered: SQLite's file lock serialises them, not modelled",
+    "a process start is connect / run_migrations / close on one file (the DBOSRuntime.run_migrations pattern; the dbos "
+    "package itself is not importable here); a killed process is modelled by raising a BaseException at the chosen write "
+    "call (or between two statements of a script) and closing the connection: SQLite's recovery of a hot journal / WAL "
+    "after a real kill is trusted to give the same file; PRAGMA journal_mode is outside the model",
+    "killed runs are outside the property's stated quantifier: the one window in which the unchanged code does not "
+    "recover (legacy user_version>=2, kill between the autocommitted CREATE TABLE schema_migrations and the commit of "
+    "the seed rows; C28_seed_window_witness) is classified under its own signature and reported as a note "
+    "(REPORT_KILL_WINDOW=False), every other kill point must recover (C28_killed_run_recovers)",
 ]
 TRUSTED_EXTRA = [
     "CPython sqlite3 + SQLite 3.40 as the execution engine of the real side",
@@ -1279,8 +1303,10 @@ def run(env: Env) -> Outcome:
     out = Outcome()
     out.rule = ("family = migration directory (+ optional second package) x start states {fresh, legacy user_version=k, "
                 "run of a prefix, legacy then prefix, injected failure then retry} x {:memory:, file}; each start: ops "
-                "fresh/ddl/setuv/run*/run/run compared with the model; non-trivial = a final run that succeeded; distinct by "
-                "(start kind, final state)")
+                "fresh/ddl/setuv/run*/run/run compared with the model; lifecycle starts: every run a process start "
+                "(connect/run/close without commit) on a file, optionally all kill points of a run and a continuation from "
+                "one of the files left: ops session*/durables/pick/session/session; non-trivial = a final run that "
+                "succeeded; distinct by (start kind, final state)")
     ctx = Ctx(env, out)
     try:
         fams: list[dict] = []
